@@ -2,6 +2,9 @@
 
 proof side    : Props/C10.lean (flux_step_formula, stencil_centred, lagrange_weights_are_basis/_sum_one/_on_node,
                 flux_preserves_constants, flux_linear(_coeffs), flux_commutes_z_shift, flux_exact_shift)
+                Props/C10Gen.lean (tie by translation: Generated/FluxGen.lean = `flux_advection` regenerated from the source on every
+                run; gen_flux_advection_eq / _sum: generated = Model `fluxAdvection` = Σ_k coeffs[k]·vals[i,j,k] for all sizes,
+                other entries untouched; gen_flux_step_formula)
 correspondence: real `FluxSurfaceAdvection(...).step(f, cIdx, rIdx)` of /repo vs. the ℚ model (Drivers/C10.lean: `flux_setup`
                 = `_getLagrangePts`, `flux_step` = the two loops).  Contracts passed to the model as exact rationals: the
                 theta-spline coefficients the real interpolator produces for every row, `zDist = -v*bz*dt` and the reduced
@@ -544,7 +547,9 @@ def run(chk):
                 'ℚ model (and 4 further steps for the identities); exact family: dyadic dz, v, dt, iota=0, displacement = h/2 cells, '
                 'h in -14..14; generic: random doubles, iota != 0, r/v distributed layouts, nL in {4,5,6,8}; non-trivial = non-zero '
                 'displacement; distinct by (family, nz, nq, spline degree/flag, nL, displacement or sub-seed)')
-    chk.proof_side(build=not getattr(chk, 'no_build', False))
+    # Props/C10Gen.lean is about Generated/FluxGen.lean = `flux_advection` as the source says it NOW: regenerate it first
+    common.run_translator(chk, 'translate_pure.py', '--only', 'flux')
+    chk.proof_side(build=not getattr(chk, 'no_build', False), extra_props=('C10Gen',))
     drv = common.LeanDriver('C10.lean')
     stats = {'worst': 0.0, 'shifts_agree': 0, 'closed_form_checked': 0, 'interp': 0.0}
     rng = chk.rng
